@@ -240,12 +240,36 @@ def _limits_big():
     os.setsid()
 
 
+_CHILDREN = set()
+
+
+def _kill_children(signum=None, frame=None):
+    """The solver processes run in their own sessions (so that a cap can kill a whole pipeline); when the
+    check itself is terminated they must not be left behind."""
+    for pid in list(_CHILDREN):
+        try:
+            os.killpg(pid, signal.SIGKILL)
+        except (ProcessLookupError, PermissionError):
+            pass
+    if signum is not None:
+        os._exit(2)
+
+
+try:
+    signal.signal(signal.SIGTERM, _kill_children)
+    signal.signal(signal.SIGINT, _kill_children)
+except ValueError:
+    pass
+
+
 def run_cmd(cmd, cap, out=None):
     t0 = time.time()
     with (open(out, 'w') if out else open(os.devnull, 'w')) as fo:
         p = subprocess.Popen(cmd, stdout=fo, stderr=subprocess.STDOUT, preexec_fn=_limits)
+        _CHILDREN.add(p.pid)
         try:
             rc = p.wait(timeout=cap)
+            _CHILDREN.discard(p.pid)
         except subprocess.TimeoutExpired:
             try:
                 os.killpg(p.pid, signal.SIGKILL)
@@ -301,7 +325,7 @@ def run_harness(h, meta, workdir):
             res['detail'] = 'cbmc exceeded cap of %ds' % h['cap']
             return res
         interpret(js, res)
-        if res['status'] not in ('fail',):
+        if res['status'] not in ('fail', 'unwind'):
             try:
                 os.remove(js)
             except OSError:
@@ -347,7 +371,7 @@ def interpret(js, res):
         res['status'] = 'error'
         res['detail'] = 'cbmc produced no result (%s)' % ('; '.join(errors)[:500] or 'no error text')
         return
-    failed, covers, unwind_failed, reach = [], [], [], {}
+    failed, covers, unwind_failed, reach, errored = [], [], [], {}, []
     nchecks = 0
     for p in props:
         sl = p.get('sourceLocation', {})
@@ -361,14 +385,21 @@ def interpret(js, res):
             continue
         nchecks += 1
         if p['status'] != 'SUCCESS':
-            if cls == 'unwind' or desc.startswith('unwinding assertion') or 'recursion unwinding' in desc:
+            if p['status'] == 'ERROR':
+                # CBMC could not decide this property (memory limit / solver error): inconclusive
+                errored.append(dict(desc=desc, loc=loc))
+            elif cls == 'unwind' or desc.startswith('unwinding assertion') or 'recursion unwinding' in desc:
                 unwind_failed.append(dict(desc=desc, loc=loc))
             else:
                 failed.append(dict(desc=desc, loc=loc, cls=cls, status=p['status']))
     res.update(checks=nchecks, failed=failed, covers=covers, unwind_failed=unwind_failed)
-    if unwind_failed:
+    if errored:
+        res['status'] = 'error'
+        res['detail'] = 'cbmc reported status ERROR (undecided: memory limit or solver error) for %d properties, first: %s' % (
+            len(errored), re.sub(r'^.*/library/', 'library/', errored[0]['loc']))
+    elif unwind_failed:
         res['status'] = 'unwind'
-        res['detail'] = 'unwinding assertion failed: bound too small, result inconclusive: %s' % unwind_failed[0]['loc']
+        res['detail'] = 'unwinding assertion failed: bound too small, result inconclusive: %s' % ' | '.join(sorted(set(re.sub(r'^.*/library/', 'library/', u['loc']) for u in unwind_failed))[:6])
     elif failed:
         res['status'] = 'fail'
     elif covers and not all(c['sat'] for c in covers):
@@ -743,6 +774,18 @@ def write_ev(prop, tier, seed, results, samples, xcheck, build_s, wall, violatio
                        'VM effects per instruction as extracted from vm/mod.rs on this run; operand arities from the hand-written table in bytecode/encoder.py',
                        'programs outside the generated family are not covered',
                        'native replay contexts: a fixed family of 14 contexts over the variables the generator uses']
+    if 'L' in extra_ev:
+        kcov = cov
+        cov = dict(extra_ev['L'].get('coverage', {}))
+        cov['kani_kernels'] = dict(harnesses=kcov['harnesses'], harnesses_run=kcov['harnesses_run'],
+                                   harnesses_passed=kcov['harnesses_passed'], solver_s=kcov['solver_s'])
+        cov['known_findings_reproduced'] = [kf['id'] for _, kf in known_hits]
+        cov['inconclusive'] = problems
+        assumptions = ['the store operations are translated from the text of loader.rs by store/engine_l.py (a small grammar of '
+                       'tier operations; anything else is inconclusive); the translation is validated against the real store on random histories',
+                       'the template compiler is abstracted to a symbolic predicate "this source compiles"; compiled templates are identified by their source',
+                       'names and sources range over small finite sets (see coverage.names / coverage.sources); histories up to coverage.history_bound steps for the BMC query',
+                       'filters/tests/globals registries, clones of the environment, concurrent renders and thread-local caches are outside this check']
     ev = dict(property_id=prop, tier=tier, seed=seed, level=level, coverage=cov,
               assumptions=assumptions, wall_s=round(wall, 1), violations=len(violations))
     json.dump(ev, open(os.path.join(ROOT, 'evidence', prop + '.json'), 'w'), indent=1)
